@@ -173,6 +173,19 @@ class FailingDict(dict):
         super().__setitem__(k, v)
 
 
+def _decide(b):
+    """truth value of a possibly symbolic bool.  When the caller runs natively inside a CrossHair path
+    (NoTracing), tracing is resumed just for this decision, so the solver forks the path here."""
+    if b is True or b is False:
+        return b
+    import sys
+    tr = sys.modules.get("crosshair.tracers")
+    if tr is not None and not tr.is_tracing() and not isinstance(b, (bool, int)):
+        with tr.ResumedTracing():
+            return bool(b)
+    return bool(b)
+
+
 class HidingDict(dict):
     """dict that pretends entries are missing: `miss[i]` (possibly symbolic bool) for the i-th key
     of `order`.  Bits are consulted lazily, only when that entry is read."""
@@ -185,7 +198,7 @@ class HidingDict(dict):
 
     def hidden(self, k):
         i = self.index.get(k, -1)
-        return i >= 0 and bool(self.miss[i])
+        return i >= 0 and _decide(self.miss[i])
 
     def unhide(self, k):
         i = self.index.get(k, -1)
